@@ -227,6 +227,8 @@ BaseWorkerScenarios ==
     {[worker |-> "A", state |-> st, cap |-> c] : st \in {"opening", "reading", "partial", "flood"}, c \in {1}}
     \cup {[worker |-> "A", state |-> "sending", cap |-> c] : c \in {0, 1, 4, 64}}
     \cup {[worker |-> "A", state |-> "readingfull", cap |-> c] : c \in {1, 4}}
+    \* the consumer of the line channel is away until a send is blocked, then takes everything: no line is lost
+    \cup {[worker |-> "A", state |-> "sendingthrough", cap |-> c] : c \in {1, 4, 64}}
     \cup {[worker |-> "S", state |-> st, cap |-> 0] : st \in {"opening", "reading", "partial", "flood"}}
     \* S blocked handing over a login: cap selects the login variant (password, key, certificate, padded key)
     \cup {[worker |-> "S", state |-> "sending", cap |-> c] : c \in {0, 1, 2, 3}}
@@ -235,6 +237,8 @@ BaseWorkerScenarios ==
     \cup {[worker |-> "P", state |-> "inflight", cap |-> c] : c \in {0, 4}}
     \* ... and with an output that fails: the errors of the flush have no receiver any more, Read returns all the same
     \cup {[worker |-> "P", state |-> "inflightfail", cap |-> c] : c \in {0, 4}}
+    \* cancelled with 1500 lines queued in the line channel and a write in progress: the queue is left alone
+    \cup {[worker |-> "P", state |-> "backlog", cap |-> 3000]}
     \* a session without login holds events when the context is cancelled: it stays silent on the way out
     \cup {[worker |-> "P", state |-> "unboundcancel", cap |-> c] : c \in {0, 4}}
     \* the sshd worker is inside the event write when it is cancelled: nothing of that record after the return
